@@ -778,6 +778,10 @@ class Engine(ExprMixin, CallMixin):
         self.guard, self.mayraise = [], []
         self.cur_stmt = s
         self.run_ghost("before", s, st)
+        sb_ = getattr(self.cur_contract, "stop_before", None)
+        if sb_ and self.depth == 0 and ast.unparse(s).startswith(sb_):
+            # PREFIX contract (see verify): symbolic execution of this function ends in front of this statement
+            return [Outcome("stop", st)]
         m = getattr(self, "st_" + type(s).__name__, None)
         if m is None:
             raise Unsupported(f"statement {type(s).__name__} at line {s.lineno}")
@@ -1627,6 +1631,8 @@ class Engine(ExprMixin, CallMixin):
             if not (0 <= k < nloops):
                 raise ContractError(f"{cname}: sidecar names loop #{k} but the function has {nloops} loops")
         first = len(self.obls)
+        if getattr(c, "stop_before", None) and (list(c.ensures) or getattr(c, "ghost_returns", None)):
+            raise ContractError(f"{cname}: a prefix contract (stop_before) cannot state postconditions of the call")
         st = State()
         # parameters
         pnames = [a.arg for a in fdef.args.args]
@@ -1672,8 +1678,13 @@ class Engine(ExprMixin, CallMixin):
                 snippet = _snip(nd)
                 self.emit(f"safe.no_{o.exc}[{snippet}]", o.st, False, nd, kind="safety")
                 continue
-            if o.kind not in ("return", "fall"):
+            if o.kind not in ("return", "fall", "stop"):
                 raise Unsupported(f"{o.kind} outside a loop")
+            # "stop": a PREFIX contract (attribute stop_before = "<statement text prefix>") verifies the function only up to
+            # that statement: what holds of the local variables there (stop_ensures) and that nothing allocated before the
+            # call has been written so far.  Nothing is claimed about the statements behind it or about the returned value:
+            # such a contract states no ensures and is refused at call sites (calls.call_contract).
+            is_stop = o.kind == "stop"
             nexits += 1
             self.reach.append((f"exit{nexits}", list(self.global_facts) + list(o.st.pc)))
             res = o.value if o.kind == "return" else None
@@ -1688,10 +1699,13 @@ class Engine(ExprMixin, CallMixin):
                 except Unsupported:
                     pass
             post.old = entry
-            for cmd in getattr(c, "ghost_exit", []):  # ghost commands run at every normal exit (e.g. naming a callee's ghost results)
+            for cmd in getattr(c, "ghost_exit", []) if not is_stop else []:  # ghost commands run at every normal exit (e.g. naming a callee's ghost results)
                 self.ghost_cmd(cmd, post, fdef, {"at": "exit", "label": "exit"})
             elsewhere = getattr(c, "ensures_in_variant", {})
-            for k, text in enumerate(c.ensures):
+            for k, text in enumerate(getattr(c, "stop_ensures", [])) if is_stop else ():
+                label = getattr(c, "stop_ensures_labels", {}).get(k, str(k))
+                self.emit(f"at-stop.{label}", post, self.spec_eval(text, post), fdef, kind="post")
+            for k, text in enumerate(c.ensures if not is_stop else ()):
                 if k in elsewhere:
                     # this clause is proved by a second contract on the same function (its own, leaner invariants):
                     # the variant must exist, state the same clause under the same requires, and is verified with this one
